@@ -534,6 +534,8 @@ def compare(op, a, b):
         return Const(op == "eq")
     if op in ("eq", "ne") and not isinstance(a, Const) and not isinstance(b, Const) and _sort_key(b) < _sort_key(a):
         a, b = b, a          # == and != are symmetric: one canonical argument order
+    if op in ("lt", "le", "gt", "ge") and not isinstance(a, Const) and not isinstance(b, Const) and _sort_key(b) < _sort_key(a):
+        a, b, op = b, a, _CMP_SWAP[op]      # a < b is b > a: one canonical argument order
     return Op(op, a, b)
 
 
